@@ -1,0 +1,22 @@
+//! Verification hooks. Compiled only with `--cfg noodles_verif`.
+//!
+//! Public wrappers around the private binning functions, so that a test harness can enumerate
+//! them exhaustively without going through an index.
+
+use bit_vec::BitVec;
+use noodles_core::Position;
+
+use crate::binning_index::index::reference_sequence::{
+    verif_reg2bin as private_reg2bin, verif_reg2bins as private_reg2bins,
+};
+
+/// Calculates the bin ID of the interval `[start, end]` (1-based, inclusive).
+pub fn reg2bin(start: Position, end: Position, min_shift: u8, depth: u8) -> usize {
+    private_reg2bin(start, end, min_shift, depth)
+}
+
+/// Sets the bits of all bins that can hold features overlapping `[start, end]` (1-based,
+/// inclusive). `bins` must be able to hold `max_bin_id(depth) + 1` bits.
+pub fn reg2bins(start: Position, end: Position, min_shift: u8, depth: u8, bins: &mut BitVec) {
+    private_reg2bins(start, end, min_shift, depth, bins)
+}
